@@ -29,6 +29,7 @@ def stepRow (o : Options) (s : LeafSt) (a : DataType) : Bool :=
   match act o s a with
   | .ok s' => (leafStates o).any (fun x => decide (x = s')) && (!s.2 || s'.2) && decide (act o s' a = .ok s')
   | .error (.err _) => true
+  | .error (.errCtx _ _) => true
   | .error (.panic _) => false
 
 def stepTable (o : Options) : Bool :=
